@@ -200,6 +200,10 @@ def l2_models(ctx, common, tabs, which):
         run("FlowMC", lambda wd: beh.flow_behaviours(wd, 9 if q else 11, maxw=30), 30)
     if "markup" in which:
         run("MarkupMC", lambda wd: beh.markup_behaviours(wd, 4 if q else 5, maxw=20), 20)
+    if "math" in which:
+        run("MathArgsMC", lambda wd: beh.mathargs_behaviours(wd, 5 if q else 6, maxw=24), 24)
+        run("MathDelimMC[block]", lambda wd: beh.mathdelim_behaviours(wd, 5 if q else 6, True, maxw=24), 24)
+        run("MathDelimMC[inline]", lambda wd: beh.mathdelim_behaviours(wd, 5 if q else 6, False, maxw=24), 24)
     ctx.extra["model_drift"] = total
     if total["drift"]:
         C.log("MODEL DRIFT: %d of %d model-predicted texts differ from the real output (not a verdict)" % (
@@ -265,7 +269,7 @@ def c08(ctx):
 
 
 def c09(ctx):
-    fmt_family(ctx, ["R09"], "flat", models=("eq",), seed_tags="math", gap_quick="1/3", pair_fixed="1/50")
+    fmt_family(ctx, ["R09"], "flat", models=("eq", "math"), seed_tags="math", gap_quick="1/3", pair_fixed="1/50")
 
 
 def c10(ctx):
@@ -447,8 +451,15 @@ def c05(ctx):
                                                                        "nontrivial_events", "universe_stats")}))
     ctx.nontrivial += s["nontrivial_events"]
     ctx.samples += s["samples"][:4]
-    ctx.validate("TracePipeline", None, specname="TSpec",
+    ctx.validate("TracePipeline", None, specname="TSpec", dirs=[d],
                  consts='CONSTANT Rels = {"Returns", "PhasesFollowSpec", "RefusalExact", "WrapperContract", "NonEmpty"}\n')
+    # the structured universes of the other properties too: every call returns, and refuses iff erroneous (R05)
+    dg = ctx.record("gap5", universe="gap+fix+chunk", widths="0,1,40,120", single_fixed="1/4", single="1/6" if q else "1/1",
+                    pair_fixed="1/800", pair="1/10" if q else "1/1", tabs="2,0" if q else "2,0,1,64", parts="fmt", passes="false",
+                    max_bytes=1 << 30)
+    dn = ctx.record("nl5", universe="nl", widths="0,80", nl_fixed="1/40", nl_sample="1/6" if q else "1/1", tabs="2", parts="fmt",
+                    passes="false")
+    ctx.validate("TraceFmt", ["R05"], dirs=[dg, dn])
     ctx.rule = ("one evaluation = one call of Typstyle::format_content + format_with_width on a UTF-8 string under one "
                 "configuration, with the phase hook logging the pipeline phases; non-trivial = the formatter accepted the "
                 "input and returned text (the others were refused as erroneous)")
@@ -616,8 +627,8 @@ def c02(ctx):
     vt2 = os.path.join(h2, "target", "release", "vt2")
     # U-prog: U-gap elements and fixtures closed into evaluable programs by a fixed prelude
     d0 = os.path.join(ctx.work, "rec-src")
-    C.record(d0, universe="gap+fix", single="1/200" if q else "1/40", pair="0/1", max_bytes=5000, widths="0", parts="none",
-             passes="false", seed=ctx.seed, shards=1)
+    C.record(d0, universe="gap+fix", single_fixed="1/40", single="1/5" if q else "1/1", pair="0/1", max_bytes=5000, widths="0",
+             parts="none", passes="false", seed=ctx.seed, shards=1)
     prelude = open(os.path.join(C.VERIF, "universe", "prelude.typ")).read()
     inp = os.path.join(ctx.work, "programs.ndjson")
     n = 0
